@@ -85,7 +85,13 @@ class World:
         if isinstance(v, _obj.ElementList):
             if len(v) > MAXVAL:
                 raise Unsupported("long list")
-            return {"os": [self.reg(x) for x in v]}
+            items = list(v)
+            if any(getattr(x, "_element", None) is not e for x, e in zip(items, v._elements)):
+                # a view list (reqif RelationsList) stores other elements than it hands out; its `in` is not iteration
+                raise Unsupported("view list")
+            if not all(isinstance(x, _obj.ModelElement) for x in items):
+                raise Unsupported("list of non-elements")  # e.g. diagrams
+            return {"os": [self.reg(x) for x in items]}
         if isinstance(v, (list, tuple)):
             if len(v) > MAXVAL:
                 raise Unsupported("long list")
